@@ -13,6 +13,25 @@ theorem applyStatus_get (s : CacheStatus) (h : Header) : Header.get (applyStatus
   · rw [Header.get_set_other _ _ _ _ (Ne.symm statusHeader_ne_fromCache), Header.get_set_self]
   · rw [Header.get_del_other _ _ _ (Ne.symm statusHeader_ne_fromCache), Header.get_set_self]
 
+/-- the clean-up after the index write: nothing, or one delete of the replaced response's key, which the index just
+    written does not name -/
+theorem dropReplaced_run (refs nr : List Ref) (ri : Option Nat) (ok : Bool) (k : Prog) (tr : List Step) (res : Result)
+    (h : Run (dropReplaced refs nr ri ok k) tr res) :
+    Run k tr res ∨ ∃ old tr', tr = Step.delete old :: tr' ∧ Run k tr' res ∧ replacedId refs ri = some old ∧ old ≠ [] ∧
+      ok = true ∧ ∀ x ∈ nr, x.id ≠ old := by
+  unfold dropReplaced at h
+  split at h
+  · rename_i old hold
+    split at h
+    · rename_i hc
+      simp only [Bool.and_eq_true, Bool.not_eq_true', List.any_eq_false, decide_eq_true_eq] at hc
+      cases h with
+      | delete h1 =>
+        refine Or.inr ⟨old, _, rfl, h1, hold, ?_, hc.1.1, fun x hx => by simpa using hc.2 x hx⟩
+        intro e; rw [e] at hc; simp at hc
+    · exact Or.inl h
+  · exact Or.inl h
+
 theorem storeResponse_run (cfg : Cfg) (reqH : Header) (r : Resp) (bodyOk : Bool) (key : Str) (refs : List Ref)
     (reqT respT : Int) (ri : Option Nat) (k : Resp → Prog) (tr : List Step) (res : Result)
     (h : Run (storeResponse cfg reqH r bodyOk key refs reqT respT ri k) tr res) :
@@ -28,7 +47,11 @@ theorem storeResponse_run (cfg : Cfg) (reqH : Header) (r : Resp) (bodyOk : Bool)
       split at h1
       · exact ⟨[_], _, rfl, rfl, rfl, h1⟩
       · cases h1 with
-        | setRefs ok2 h2 => exact ⟨[_, _], _, rfl, rfl, rfl, h2⟩
+        | setRefs ok2 h2 =>
+          dsimp only at h2
+          rcases dropReplaced_run _ _ _ _ _ _ _ h2 with hk | ⟨old, tr', e, hk, _⟩
+          · exact ⟨[_, _], _, rfl, rfl, rfl, hk⟩
+          · subst e; exact ⟨[_, _, _], _, rfl, rfl, rfl, hk⟩
 
 /-- how a validation can end, as a function of the origin's answer -/
 inductive ValidationOutcome (reqH : Header) (stored : Entry) (mustValidate : Bool) : OriginAns → Result → Prop where
@@ -252,6 +275,10 @@ inductive StoreWrites (r : Resp) (bodyOk : Bool) (key : Str) : List Step → Pro
   | stored (id : Str) (en : Entry) (refs : List Ref) (ok : Bool) : bodyOk = true →
       en.resp = respWith r (removeHopByHop r.header) → (∃ ref ∈ refs, ref.id = id) →
       StoreWrites r bodyOk key [.setEntry id en true, .setRefs key refs ok]
+  /-- … and the removal of the response the replaced reference named, which the index just written does not name -/
+  | storedDropping (id : Str) (en : Entry) (refs : List Ref) (old : Str) : bodyOk = true →
+      en.resp = respWith r (removeHopByHop r.header) → (∃ ref ∈ refs, ref.id = id) → (∀ x ∈ refs, x.id ≠ old) →
+      StoreWrites r bodyOk key [.setEntry id en true, .setRefs key refs true, .delete old]
 
 theorem mem_dedupe_self (refs : List Ref) (idx : Nat) (ref : Ref) (h : refs[idx]? = some ref) :
     ref ∈ dedupeRefs refs idx ref := by
@@ -297,7 +324,11 @@ theorem storeResponse_trace (cfg : Cfg) (reqH : Header) (r : Resp) (bodyOk : Boo
         subst this
         cases h1 with
         | setRefs ok2 h2 =>
-          refine ⟨[_, _], _, rfl, .stored _ _ _ _ hb' rfl ⟨_, mem_dedupe_self _ _ _ (placeRef_get _ _ _), rfl⟩, h2⟩
+          dsimp only at h2
+          rcases dropReplaced_run _ _ _ _ _ _ _ h2 with hk | ⟨old, tr', e, hk, _, _, hok, hnot⟩
+          · exact ⟨[_, _], _, rfl, .stored _ _ _ _ hb' rfl ⟨_, mem_dedupe_self _ _ _ (placeRef_get _ _ _), rfl⟩, hk⟩
+          · subst e; subst hok
+            exact ⟨[_, _, _], _, rfl, .storedDropping _ _ _ _ hb' rfl ⟨_, mem_dedupe_self _ _ _ (placeRef_get _ _ _), rfl⟩ hnot, hk⟩
 
 
 theorem wrote_append (a b : List Step) : wrote (a ++ b) = (wrote a || wrote b) := by
